@@ -350,7 +350,37 @@ func genCase(t *rapid.T) mcase {
 		c.Adjs = append(c.Adjs, a)
 	}
 	c.Perm = map[string]string{}
-	switch rapid.IntRange(0, 6).Draw(t, "permkind") {
+	switch rapid.IntRange(0, 7).Draw(t, "permkind") {
+	case 7: // right arity, one dimension of an adjustment's (or base) tuple swapped for an unknown one
+		src := map[string]string{}
+		if len(c.Adjs) > 0 && rapid.Bool().Draw(t, "swapfromadj") {
+			for d, v := range c.Adjs[rapid.IntRange(0, len(c.Adjs)-1).Draw(t, "swapadj")].With {
+				src[d] = v
+			}
+		} else {
+			for _, d := range names {
+				if len(c.Setup[d]) > 0 {
+					src[d] = rapid.SampledFrom(c.Setup[d]).Draw(t, "swapv")
+				} else {
+					src[d] = val.Draw(t, "swapv2")
+				}
+			}
+		}
+		ds := make([]string, 0, len(src))
+		for d := range src {
+			ds = append(ds, d)
+		}
+		sort.Strings(ds)
+		for d, v := range src {
+			c.Perm[d] = v
+		}
+		if len(ds) > 0 {
+			gone := ds[rapid.IntRange(0, len(ds)-1).Draw(t, "swapdim")]
+			delete(c.Perm, gone)
+			// the unknown dimension's value: empty (what a lookup of a missing key yields), the value it
+			// replaces, or anything
+			c.Perm[rapid.SampledFrom([]string{"unknown", "flavour", gone + "x", ""}).Draw(t, "swapname")] = rapid.SampledFrom([]string{"", "", src[gone], "zz"}).Draw(t, "swapval")
+		}
 	case 0, 1: // base combination
 		for _, d := range names {
 			if len(c.Setup[d]) > 0 {
